@@ -797,7 +797,10 @@ OBLIGATIONS = [
            "thorough": [(si, off, m, lo + 4095, lo) for si, off in ((0.1, 0.0), (0.001, 0.0), (0.3, 0.7),
                                                                     (0.1, -1.3), (2.5e-05, 0.0),
                                                                     (1.0 / 3.0, 0.25))
-                        for m in ("LessOrEqual", "GreaterOrEqual", "Less") for lo in (0, 4096, 8192, 12288)]},
+                        for m in ("LessOrEqual", "GreaterOrEqual", "Less") for lo in (0, 4096, 8192, 12288)] +
+                       [(0.0005, off, m, 4096, 0, fr) for off in (-250.0, 100.0, 1.0e4)
+                        for m, fr in (("GreaterOrEqual", 0.4), ("LessOrEqual", 0.6), ("Less", 0.4),
+                                      ("GreaterOrEqual", 0.1), ("LessOrEqual", 0.9))]},
        functions=[_S + "position_at", _S + "index_of"], replay=_replay_ieee,
        outside="other interval / offset pairs than the listed concrete doubles; sample numbers above "
                "4096 (quick) / 16383 (thorough, in four chunks); positions other than position_at(i) and "
